@@ -378,7 +378,7 @@ def _run(world: World, plan):
     by_sim = {}                   # sim conn id -> link record
     conn_sim = {}                 # id(aioslsk connection) -> sim conn id
     slots = {name: {'acc': [], 'con': []} for name in names}
-    slot_events = {name: {'acc': asyncio.Event(), 'con': asyncio.Event()} for name in names}
+    link_waiters = {name: [] for name in names}
     admission = model.Admission()
     proposals = []                # (t, username) delivered to alice
     own_stats = []                # t of own GetUserStats answers delivered to alice
@@ -399,7 +399,9 @@ def _run(world: World, plan):
         links.append(rec)
         by_sim[sim.id] = rec
         slots[peer.name][slot].append(rec)
-        slot_events[peer.name][slot].set()
+        for fut in list(link_waiters[peer.name]):
+            if not fut.done():
+                fut.set_result(None)
         world.trace('link', peer.name, slot, rec['index'])
         touch()
         return rec
@@ -460,18 +462,19 @@ def _run(world: World, plan):
                 if rec is not None:
                     break
                 remaining = deadline - loop.time()
-                if remaining <= 0:
+                if remaining <= 1e-6:
                     world.trace('skipped', ev['op'], name, via)
                     world.probe('event_without_connection')
                     return
-                waiters = [slot_events[name][s] for s in (('acc', 'con') if via not in ('acc', 'con') else (via,))]
-                for w in waiters:
-                    w.clear()
+                fut = loop.create_future()
+                link_waiters[name].append(fut)
+                handle = loop.call_later(remaining, lambda fut=fut: fut.done() or fut.set_result(None))
                 try:
-                    await asyncio.wait_for(asyncio.wait([asyncio.ensure_future(w.wait()) for w in waiters],
-                                                        return_when=asyncio.FIRST_COMPLETED), remaining)
-                except asyncio.TimeoutError:
-                    pass
+                    await fut
+                finally:
+                    handle.cancel()
+                    if fut in link_waiters[name]:
+                        link_waiters[name].remove(fut)
             action(rec)
             touch()
         finally:
@@ -662,9 +665,12 @@ def _run(world: World, plan):
             socks = socket_state(conn)
             rec = by_sim.get(conn_sim.get(id(conn)))
             if conn.state != ConnectionState.CONNECTED or socks is None or not all(socks):
-                world.violate('C13.dead_link', role=role, state=conn.state.name,
-                              own_socket=bool(socks and socks[0]), remote_socket=bool(socks and socks[1]),
-                              ended=rec['ended'] if rec else None, session=state['session_lost'] is None)
+                facts = {'role': role, 'state': conn.state.name, 'own_socket': bool(socks and socks[0])}
+                if state['session_lost'] is not None:
+                    facts['session'] = False
+                if DEBUG:
+                    facts.update(remote_socket=bool(socks and socks[1]), ended=rec['ended'] if rec else None)
+                world.violate('C13.dead_link', **facts)
         if parent is not None and not state.get('pic'):
             if any(c.connection is parent.connection for c in children):
                 world.violate('C13.parent_is_child', by='connection', how='at_rest')
@@ -711,8 +717,10 @@ def _run(world: World, plan):
                 continue
             got = model.told([(k, v) for (_, k, v) in rec['got']], OWN)
             joined = next((a for a in admissions if a['link'] == rec['index']), None)
-            facts = dict(base, joined='with_parent' if joined and _had_parent(transitions, joined['iteration'])
-                         else 'without_parent')
+            facts = dict(base)
+            if DEBUG:
+                facts['joined'] = ('with_parent' if joined and _had_parent(transitions, joined['iteration'])
+                                   else 'without_parent')
             if got['level'] != want['level']:
                 world.violate('C13.child_told', field='level', **facts, **extra(got=got['level'], want=want['level']))
             if got['root'] not in want['roots']:
@@ -808,6 +816,8 @@ def _run(world: World, plan):
             continue
         verdict = model.judge_admission(t, a['count_before'], accept_log, admission)
         if verdict is not None:
+            if not DEBUG:
+                verdict = {'reason': verdict['reason']}
             if not a['session']:
                 verdict['session'] = False
             world.violate('C13.child_admission', **verdict)
